@@ -11,7 +11,7 @@ LEVEL = "other"
 # solver budget: every obligation of these targets is discharged in well under 2 s on the unchanged tree, so an obligation that is still
 # undecided after 4 s per stage (z3, z3 E-matching only, cvc5) is reported as failed without the long default budgets
 DEDUCTIVE = [{"module": "rnapolis.transformer", "sidecar": "contracts.transformer_c", "targets": ["copy_from_to", "replace_value", "main"],
-              "opts": {"z3_ms": 4000, "cvc5_s": 4}, "retry_unknown": False}]
+              "opts": {"z3_ms": 15000, "cvc5_s": 10}, "retry_unknown": False}]
 TRUSTED = [
     "CPython 3.12 as encoded by pyvc (incl. list objects with identity: item-name list, attribute list, row list and rows are heap objects, so the aliasing through getAttributeList()/getRowList() is modelled, not assumed away)",
     "mmcif IoAdapterPy.readFile (contracts.transformer_c.ext_readFile): returns new, pairwise different container/category/list/row objects holding parse(text); category names in a container are pairwise different and each is a catalog key",
@@ -26,9 +26,9 @@ ASSUMPTIONS = [
     "definition ndist_definition (contracts.transformer_c LEMMAS): ndist(D,k,i,n) = number of different values among the first n cells of the item, by recursion on n",
     "definition firstpos_definition: firstpos(D,k,i,x) = least row of the item holding x (least-number principle: it holds x and is <= every row holding x); used for 'seen in an earlier row' (firstpos < r), in the definition of ndist, and as the explicit witness in 'mapping keys are old values'",
     "requires wellformed(parse(file_content)): item names of a category pairwise different and every row has one cell per item (the reader itself can return short rows for a truncated loop)",
-    "requires enough_values: ndist(prefix) <= len(values) for EVERY prefix of the rows - equivalent to len(values) >= number of distinct values because ndist is monotone in n (monotonicity itself is not proved); IndexError is excluded under it (raises = [])",
+    "replace_value requires distinct_chars(values) (pairwise different characters); NO requires about len(values): the exhausted alphabet is the declared exceptional exit raises = {IndexError: not enough_values(...)}, i.e. some prefix of the rows has more different values than len(values) (stated per prefix; equal to 'more distinct values than characters' by monotonicity of ndist, which is not proved) - proved exact in both directions (obligations raises.IndexError.only-when / .whenever)",
     "heap frame: the contents of pre-existing StrList/RowList/Row model objects are in `modifies` (no such object can be passed in - the parameters are strings; 'everything else untouched' is proved on the written document, clause other-categories-untouched)",
-    "main: requires --category given (cli_has_category) and wellformed/enough_values for the input file's content; the ghost file system is not threaded through the two callee contracts, i.e. the library calls are assumed to leave files other than their own temporary files unchanged",
+    "main: requires --category given (cli_has_category), wellformed input file content and, in replace mode, distinct characters in --values; IndexError (exhausted alphabet, propagated from replace_value) is a declared exit of main; the ghost file system is not threaded through the two callee contracts, i.e. the library calls are assumed to leave files other than their own temporary files unchanged",
     "main uses the callee contracts copy_from_to@cli / replace_value@cli: the proved contracts with extra preconditions (the data-flow obligations) and only ghost-definition postconditions, hence implied by the proved ones",
 ]
 EXPLANATION = (
@@ -37,11 +37,11 @@ EXPLANATION = (
     "(1) otherwise result == render(W); (2) W has the same blocks and categories in the same order; (3) every other category of every block keeps items, "
     "row count/order/lengths and all cells; (4) items of the category unchanged except ONE appended target item when it was absent; (5) same row count, every "
     "row has one cell per item (+1 for a new item); (6) all non-target cells kept; (7) target cell == source cell of the same input row. Safety: no IndexError/"
-    "ValueError/AttributeError. replace_value [148]: (0) missing => (input, empty mapping); (1)-(3) as above; (4) items and row shape kept; (5) other cells kept; "
+    "ValueError/AttributeError. replace_value [152]: (0) missing => (input, empty mapping); (1)-(3) as above; (4) items and row shape kept; (5) other cells kept; "
     "(6) every old value is a key and the new cell is its image under the RETURNED mapping; (7) every key is an old value (witness row firstpos); (8) first-seen: a "
     "value whose first row is r (firstpos(value) == r, i.e. not seen in an earlier row) maps to values[ndist(r)] (= number of distinct values before) and "
-    "len(mapping) == number of distinct values; (9) injective when the "
-    "characters of `values` are distinct. The proofs go through the aliasing of the attribute list and the in-place mutated rows: data[0].replace(DataCategory("
+    "len(mapping) == number of distinct values; (9) injective - on EVERY normal exit, for every alphabet with distinct characters; IndexError is raised exactly "
+    "when the alphabet is exhausted (raises.IndexError.only-when / .whenever). The proofs go through the aliasing of the attribute list and the in-place mutated rows: data[0].replace(DataCategory("
     "category_obj, ...)) is modelled faithfully and is a no-op (object passed as name); a variant passing the category NAME (effective replace) also verifies. "
     "main [71]: call-site obligations call[..]->copy_from_to.requires.1-4 / replace_value.requires.2-5 = the first argument of the library call is the CONTENT of "
     "the file named args.input and the others are the command-line values; arg-not-None obligations; ensures: in copy/replace mode the text of the file written "
@@ -68,7 +68,9 @@ def one(case):
     if src != dst:
         errs += TO.check_copy(text, cn, src, dst)
     col = rng.choice(attrs)
-    vals = VALUES if rng.random() < .7 else "".join(rng.sample(VALUES, 12))
+    u = rng.random()
+    # full alphabet, a 12-character sample, or a very short one (exhausted by the item's distinct values: either an exception or an injective mapping)
+    vals = VALUES if u < .6 else ("".join(rng.sample(VALUES, 12)) if u < .8 else rng.choice(["", "A", "AB", "XYZ"]))
     errs += TO.check_replace(text, cn, col, vals)
     return errs, (text, cn, src, dst, col, vals)
 
